@@ -72,7 +72,7 @@ def valOracle (N : Nat) (s : VSys Nat) : Bool :=
 def stepSt (s : St) : List String → St × String
   | ["tb_new", k] => ({ s with buf := {}, kind := k }, "ok")
   | ["push_fail", _, _] => (s, if s.kind == "i" then "bad-op" else "bad_alloc")
-  | ["push", p, x] | ["pushm", p, x] =>
+  | ["push", p, x] | ["pushm", p, x] | ["pushl", p, x] =>
       match p.toNat?, x.toNat? with
       | some p, some x => ({ s with buf := (s.buf.exec (.push p x)).1 }, "ok")
       | _, _ => (s, "bad-op")
